@@ -300,7 +300,10 @@ class Gen:
                 if rootobj is None:
                     break
                 walk = f"static_cast<C0&&>({r0})"
-                for o in ops:
+                wops = list(ops)
+                while wops and wops[-1] in ("bind_fwd", "bind_const", "move", "std_as_const"):   # naming / casting the view does not change the object
+                    wops.pop()
+                for o in wops:
                     walk = f"op_{o}::f({walk})"
                 RD, make, ro = RD0, "c16_walk", rootobj
             src = self.chain_src(st) + (REBIND_SRC.replace("RHS", variant).replace("ROOTOBJ", ro).replace("WALK", walk).replace("MAKE", make)
@@ -408,7 +411,8 @@ template<class Arr> decltype(auto) c16_walk(Arr& arr) {
 volatile int c16_never = 0;
 int main(int argc, char**) {
   multi::array<int, RD0> A(multi::extensions_t<RD0>{EXT3}, 1), B(multi::extensions_t<RD0>{EXT3}, 2), C(multi::extensions_t<RD0>{EXT4}, 3);
-  V v = MAKE(A); V w = MAKE(B); V u = MAKE(C);
+  auto&& v = MAKE(A); auto&& w = MAKE(B); auto&& u = MAKE(C);
+  static_assert(std::is_same_v<std::remove_cv_t<std::remove_reference_t<decltype(v)>>, V>, "the probe object has the state's view type");
   auto l0 = v.layout(); auto p0 = v.base(); auto n0 = v.num_elements();
   static_assert(std::is_same_v<std::remove_cv_t<std::remove_reference_t<decltype(static_cast<ST&&>(v) = RHS(w))>>, V>, "assignment returns the view itself");
   if (argc > 1) {
@@ -723,6 +727,7 @@ def main(argv):
     work = None
     no_lean = False
     use_findings = True
+    reuse_raw = False
     i = 1
     while i < len(argv):
         if argv[i] == "--tier":
@@ -737,18 +742,33 @@ def main(argv):
             no_lean = True; i += 1
         elif argv[i] == "--no-findings":
             use_findings = False; i += 1
+        elif argv[i] == "--reuse-raw":
+            reuse_raw = True; i += 1
         else:
             i += 1
     if tier not in ("quick", "thorough"):
         tier = "quick"
     work = work or os.path.join(HERE, ".build", "C16", "gen")
+    os.makedirs(os.path.dirname(jpath), exist_ok=True)
     if os.path.exists(jpath):
         os.unlink(jpath)          # a failing run must not leave a stale table behind
     t0 = time.time()
     gen = Gen(repo, tier, work)
     gen.build_prelude()
     roots = roots_for(tier)
-    states, by_name, root_ids = bfs(gen, roots)
+    raw = os.path.join(os.path.dirname(jpath), "const_table_raw.%s.json" % tier)
+    if reuse_raw and os.path.exists(raw):      # development aid only (never used by ./check): rebuild the table from a previous exploration
+        d = json.load(open(raw))
+        states = d["states"]
+        for st in states:
+            st["parent"] = states[st["parent"]] if st["parent"] is not None else None
+            st["edges"] = {k: (tuple(v) if isinstance(v, list) else v) for k, v in st["edges"].items()}
+        by_name = {k: states[v] for k, v in d["by_name"].items()}
+        root_ids = [tuple(r) for r in d["root_ids"]]
+    else:
+        states, by_name, root_ids = bfs(gen, roots)
+        json.dump({"states": [dict(st, parent=(st["parent"]["id"] if st["parent"] is not None else None)) for st in states],
+                   "by_name": {k: v["id"] for k, v in by_name.items()}, "root_ids": root_ids}, open(raw, "w"))
     findings = load_open_findings() if use_findings else []
     tab = build_table(gen, states, by_name, root_ids, findings)
     tab["compiles"] = gen.compiles
